@@ -173,6 +173,8 @@ def step (s : St) (line : String) : St × String :=
   | "STAGE2" :: _ => let r := Stage2Eng.step s.s2 t; ({ s with s2 := r.1 }, r.2)
   | "P" :: _ => let r := Stage2Eng.step s.s2 t; ({ s with s2 := r.1 }, r.2)
   | "END2" :: _ => let r := Stage2Eng.step s.s2 t; ({ s with s2 := r.1 }, r.2)
+  | "Y" :: _ => let r := Stage2Eng.step s.s2 t; ({ s with s2 := r.1 }, r.2)
+  | "ENDY" :: _ => let r := Stage2Eng.step s.s2 t; ({ s with s2 := r.1 }, r.2)
   | ["STAGE", "before", flags, ac, an] =>
     match parseNat flags with
     | some f => ({ phase := 1, flags := f, hdr := [ac, an], lines := [], expected := none }, ".")
